@@ -27,7 +27,11 @@ def describe(tier, seed):
                 'ICC TLV lists of every length 2..999, raw PDS carriers of every length 7..999, numbers 0/1/10^(w-1)/'
                 '10^w-1/mixed, every year 1969..2068 x 4 days, decimals, DE43 texts, full codec repertoire); '
                 '(B) every unordered pair of elements x {shortest,longest}^2; (C) all elements, all-but-one, <=64, '
-                '>=65, even/odd bits, every window of 8, MTI variants, empty. Oracle: loads(dumps(copy)) has every '
+                '>=65, even/odd bits, every window of 8, MTI variants, empty; (D) sequences: every ordinary use of another part '
+                'of the library (10 pre steps: the conversion / CSV / parameter tools, ipm_info, a custom-configuration '
+                'codec call, dumps of the same dict twice, a failing decode) singly and in every ordered pair before a '
+                'message using PDS, ICC, DE43 and typed fields under the default configuration, and A,B,A,.. '
+                'alternations of configurations / codecs / bitmap renderings on every element. Oracle: loads(dumps(copy)) has every '
                 'original key with an equal value (masked / prefix for PAN processors) and only documented extras. '
                 'A case is distinct by (cfg, codec, bitmap, element variants); non-trivial when it carries at least '
                 'one element.' % len(combos),
@@ -44,7 +48,10 @@ def describe(tier, seed):
 
 def replay_case(case):
     acc = core.Acc()
-    isocheck.check_roundtrip(case, acc, 'c01')
+    if 'alt' in case:
+        isocheck.check_sequence(case, acc, isocheck.check_roundtrip, 'c01')
+    else:
+        isocheck.check_roundtrip(case, acc, 'c01')
     return acc
 
 
